@@ -24,7 +24,7 @@ VS_SIG, VS_VER = 0xfeef04bd, 0x00010000
 MISC_NINTS = {1: 6, 2: 11, 3: 15 + (1 + 32 + 8 + 1 + 32 + 8 + 1), 4: 15 + 83 + 300, 5: 15 + 83 + 300 + 3 + 128 + 1}
 MISC_SIGNED = {3: {15, 15 + 41, 15 + 82}}
 SECTIONS = ["hdr", "sys", "thr", "mod", "mem", "memq", "m64", "m64q", "exc", "tnm", "unl", "mi", "misc",
-            "bp", "asr", "ti", "lxcpu", "lxstatus", "lxlsb", "lxenv", "lxmaps", "lxlim", "hnd", "dir", "unk", "serr", "boot", "cpad", "hinfo"]
+            "bp", "asr", "ti", "lxcpu", "lxstatus", "lxlsb", "lxenv", "lxmaps", "lxlim", "hnd", "dir", "unk", "serr", "boot", "cpad", "hinfo", "unimp", "mci"]
 RAW_KEYS = ["lxcpu", "lxstatus", "lxlsb", "lxenv", "lxmaps", "lxlim"]
 KV_SEP = {"lxcpu": b":", "lxstatus": b":", "lxlsb": b"=", "lxenv": b"="}
 
@@ -36,6 +36,12 @@ NAMED = set(range(0, 25)) | set(range(0x8000, 0x800d)) | {0xffff} | set(range(0x
 NAMED_RAW_ONLY = [0, 0, 1, 2, 8, 10, 10, 11, 13, 18, 19, 20, 21, 22, 23, 0x8000, 0x8001, 0x8005, 0x800c, 0xffff, 0x47670006, 0x47670008, 0x4767000a]
 UNKNOWN_TYPES = [0x4d7a0b0b, 0x4d7a0b0b, 0x4d7a0005, 0x4d7a0000, 0x47670000, 0x4767000b, 0x4767ffff, 0x43500002, 0x43500000, 25, 26, 0x7fff, 0x800d,
                  0x10000, 0x10001, 0xfffffffe, 0xffffffff, 0x80000000, 0x12345678]
+
+
+# stream types some typed reader (`impl MinidumpStream`) serves, written down here independently of minidump.rs; every other NAMED
+# type is what unimplemented_streams() must list
+WITH_READER = {3, 4, 5, 6, 7, 9, 12, 14, 15, 16, 17, 24, 0x47670001, 0x47670002, 0x47670003, 0x47670004, 0x47670005, 0x47670007, 0x47670009,
+               0x43500001, 0x4d7a0001, 0x4d7a0002, 0x4d7a0003, 0x4d7a0004}
 
 
 def stream_vendor(ty):
@@ -51,7 +57,7 @@ def expected_dir(h, big):
     last = {}
     for i, (ty, size, rva) in enumerate(dir_entries(h, big)):
         last[ty] = (i, size, rva)
-    items, unk = [], []
+    items, unk, unimp = [], [], []
     for ty in sorted(last):
         i, size, rva = last[ty]
         it = [ty, i, size, rva]
@@ -59,7 +65,9 @@ def expected_dir(h, big):
         items.append(it)
         if ty not in NAMED:
             unk.append([ty, size, rva, stream_vendor(ty)])
-    return {"dir": (2, items), "unk": (2, unk)}
+        elif ty not in WITH_READER:
+            unimp.append([ty, size, rva, stream_vendor(ty)])
+    return {"dir": (2, items), "unk": (2, unk), "unimp": (2, unimp)}
 
 
 # ----------------------------------------------------------------------------- round 4 streams (written by the plugin itself)
@@ -67,8 +75,9 @@ def expected_dir(h, big):
 # Coq-serialized dump and announced by (leading) directory entries.  The extracted Coq serializers enc_bootargs / enc_crashpad
 # must produce the same bytes (checked in gen_cases), the extracted readers and the real readers read them back.
 T_SERR, T_BOOT, T_CPAD = 0x4d7a0004, 0x4d7a0002, 0x43500001
-TAIL_TYPE = {1: T_SERR, 2: T_BOOT, 3: T_CPAD, 4: 12}
-TAIL_SEC = {1: "serr", 2: "boot", 3: "cpad", 4: "hnd"}
+T_MCI = 0x4d7a0001
+TAIL_TYPE = {1: T_SERR, 2: T_BOOT, 3: T_CPAD, 4: 12, 5: T_MCI}
+TAIL_SEC = {1: "serr", 2: "boot", 3: "cpad", 4: "hnd", 5: "mci"}
 
 
 def _u(n, v, big):
@@ -176,7 +185,76 @@ def ser_handles(x, off, big):
     return ssize, _u(4, 16, big) + _u(4, esize, big) + _u(4, len(hs), big) + _u(4, 0, big) + ents + aux
 
 
+def mci_fixed(ver):
+    """documented variants of the Mac crash info record: (number of u64 fields, number of C strings) by version"""
+    return (5, 5) if ver >= 5 else (4, 5) if ver >= 4 else (2, 0) if ver >= 1 else None
+
+
+def ser_mci_record(r, big):
+    b = b"".join(_u(8, v, big) for v in r["ints"]) + bytes(r["gap"])
+    for k, z in enumerate(r["strings"]):
+        b += bytes(z) + (b"" if (r["nonul"] and k == len(r["strings"]) - 1) else b"\0")
+    return b + bytes(r["trail"])
+
+
+def ser_maccrash(x, off, big):
+    """MINIDUMP_MAC_CRASH_INFO: stream type, record count, record_start_size, 20 location descriptors; the records follow the
+    header in the storage order x["perm"] (any order), location i points at record i"""
+    recs = [ser_mci_record(r, big) for r in x["recs"]]
+    at = {}
+    o = off + 172
+    body = b""
+    for k in x["perm"]:
+        at[k] = o
+        body += recs[k]
+        o += len(recs[k])
+    locs = []
+    for k, r in enumerate(x["recs"]):
+        locs.append((U32, U32 - 7) if r["oob"] else (len(recs[k]), at[k]))
+    locs += [tuple(f) for f in x["fill"]]
+    assert len(locs) == 20
+    return 172, _u(4, x["stype"], big) + _u(4, x["count"], big) + _u(4, x["start"], big) + b"".join(_u(4, a, big) + _u(4, b2, big) for a, b2 in locs) + body
+
+
+def mci_expect(x):
+    """the documented reading of the stream: the first `count` records in header order, each with the fields and strings of
+    the variant its version selects; None = outside what the property fixes (only model and implementation are compared)"""
+    n = len(x["recs"])
+    if x["count"] != n:
+        return None
+    vers = set(r["ints"][1] for r in x["recs"])
+    if len(vers) > 1:
+        return (1, [])                       # records of different versions cannot share record_start_size
+    if any(r["oob"] for r in x["recs"]):
+        return (1, [])
+    items = []
+    for r in x["recs"]:
+        ver = r["ints"][1]
+        fx = mci_fixed(ver)
+        if fx is None:
+            return None                      # version 0
+        nf, ns = fx
+        if len(r["ints"]) != nf or len(r["strings"]) != ns:
+            return None
+        if x["start"] < 8 * nf:
+            return (1, [])
+        if ns:
+            if x["start"] != 8 * nf + len(r["gap"]) or any(0 in z for z in r["strings"]) or (r["nonul"] and 0 in r["trail"]):
+                return None
+            if r["nonul"] or not all(is_utf8(z) for z in r["strings"]):
+                return (1, [])               # a string that is not UTF-8 / has no terminator inside the record
+        it = [nf] + list(r["ints"]) + [ns]
+        for z in r["strings"]:
+            it += bl(z)
+        acc = [(r["ints"][k] if k < nf and r["ints"][k] != 0 else -1) for k in (1, 2, 3, 4)]
+        sacc = [(len(r["strings"][k]) if k < ns and len(r["strings"][k]) else -1) for k in range(5)]
+        items.append(it + acc + sacc)
+    return (2, items)
+
+
 def ser_tail(kind, x, off, big, corrupt=True):
+    if kind == 5:
+        return ser_maccrash(x, off, big)
     if kind == 1:
         return len(x), bytes(x)
     if kind == 2:
@@ -204,6 +282,17 @@ def bstr_toks(b):
 def tail_toks(kind, x):
     if kind == 1:
         return bstr_toks(x)
+    if kind == 5:
+        t = [x["stype"], x["count"], x["start"], len(x["recs"])]
+        for r in x["recs"]:
+            t += [len(r["ints"])] + list(r["ints"]) + bstr_toks(r["gap"]) + [len(r["strings"])]
+            for z in r["strings"]:
+                t += bstr_toks(z)
+            t += bstr_toks(r["trail"]) + [r["nonul"], r["oob"]]
+        t += list(x["perm"])
+        for f in x["fill"]:
+            t += list(f)
+        return t
     if kind == 4:
         t = [x["v2"], len(x["handles"])]
         for h in x["handles"]:
@@ -239,6 +328,18 @@ def parse_tail(r, kind):
         return [(bs(), bs()) for _ in range(r.int())]
     if kind == 1:
         return bs()
+    if kind == 5:
+        x = {"stype": r.int(), "count": r.int(), "start": r.int(), "recs": []}
+        n = r.int()
+        for _ in range(n):
+            rec = {"ints": r.ints(r.int()), "gap": bs()}
+            rec["strings"] = [bs() for _ in range(r.int())]
+            rec["trail"] = bs()
+            rec["nonul"], rec["oob"] = r.int(), r.int()
+            x["recs"].append(rec)
+        x["perm"] = r.ints(n)
+        x["fill"] = [tuple(r.ints(2)) for _ in range(20 - n)]
+        return x
     if kind == 4:
         def ostr4():
             n = r.int()
@@ -291,6 +392,8 @@ def chain_expect(x, h):
 
 def tail_expect(kind, x):
     """what reading the stream must give: (status, items)"""
+    if kind == 5:
+        return mci_expect(x)
     if kind == 4:
         return (2, [[2 if x["v2"] else 1, h["h"]] + list(h["ints"]) + ([-1] if h["type"] is None else str_toks(h["type"]))
                     + ([-1] if h["obj"] is None else str_toks(h["obj"])) for h in x["handles"]])
@@ -854,7 +957,7 @@ def expected(m):
     def onm(o):
         return [-1] if o is None else [len(o)] + list(o)
 
-    for kind in (1, 2, 3):
+    for kind in (1, 2, 3, 5):
         l = [x for k2, x in (m.get("tail") or []) if k2 == kind]
         E[TAIL_SEC[kind]] = tail_expect(kind, l[-1]) if l else (0, [])
     th = [x for k2, x in (m.get("tail") or []) if k2 == 4]
@@ -1289,6 +1392,50 @@ class Gen:
             b += r.choice([b"\xff", b"\xc0\x80", b"\xed\xa0\x80", b"\xe2\x98", b"\xf4\x90\x80\x80", b"\x80", b"\xf0\x8f\xbf\xbf", b"\xc3"])
         return b
 
+    def maccrash(self, wf):
+        """Mac crash info: 0-20 records of one version (1..7, large), fields incl. zero, strings incl. empty / multi-byte, unknown
+        fields before the strings, trailing bytes, any storage order; not wf: mixed versions, version 0, record_start_size too
+        small, broken UTF-8, a missing terminator, a location outside the file, a record count that is not the number of records"""
+        r = self.r
+        n = r.choice([0, 1, 1, 2, 2, 3, 5, 20])
+        ver = r.choice([1, 2, 3, 4, 4, 5, 5, 5, 6, 7, self.u(64) | 8])
+        bad = r.below(8) if not wf else -1
+        nf, ns = mci_fixed(ver)
+        start = 8 * nf + r.choice([0, 0, 8, 16, 3])
+        if bad == 2 and n:
+            start = r.choice([0, 8, 8 * nf - 1, 8 * nf - 8])
+        recs = []
+        for k in range(n):
+            v = ver
+            if bad == 0 and k == n - 1 and n > 1:
+                v = r.choice([1, 4, 5, 6])
+            if bad == 1 and r.chance(1, 2):
+                v = 0
+            fx = mci_fixed(v) or (2, 0)
+            ints = [r.choice([T_MCI, T_MCI, 0, self.u(64)]), v] + [r.choice([0, 1, self.u(64), U64]) for _ in range(fx[0] - 2)]
+            gap = bytes(r.below(256) for _ in range(max(0, start - 8 * fx[0])))
+            if fx[1] == 0 and r.chance(1, 3):
+                gap = b""                                   # a base record may end before record_start_size: it has no strings to read
+            strings = [bytes(z for z in self.bstr(bad == 3) if z != 0) for _ in range(fx[1])]
+            trail = bytes(r.below(256) for _ in range(r.choice([0, 0, 1, 9])))
+            recs.append({"ints": ints, "gap": gap, "strings": strings, "trail": trail,
+                         "nonul": 1 if (bad == 4 and fx[1] and k == n - 1) else 0, "oob": 1 if (bad == 5 and r.chance(1, 2)) else 0})
+            if recs[-1]["nonul"]:
+                recs[-1]["trail"] = b"" if r.chance(1, 2) else bytes(r.range(1, 255) for _ in range(3))
+        perm = list(range(n))
+        st = r.below(3)
+        if st == 1:
+            perm.reverse()
+        elif st == 2:
+            for i in range(n - 1, 0, -1):
+                j = r.below(i + 1)
+                perm[i], perm[j] = perm[j], perm[i]
+        count = n
+        if bad == 6:
+            count = r.choice([n + 1, 21, U32, max(0, n - 1)])
+        fill = [r.choice([(0, 0), (0, 0), (self.u(32), self.u(32)), (16, 0)]) for _ in range(20 - n)]
+        return {"stype": r.choice([T_MCI, T_MCI, 0, self.u(32)]), "count": count, "start": start, "recs": recs, "perm": perm, "fill": fill}
+
     def tail(self, wf):
         r = self.r
         out = []
@@ -1333,6 +1480,8 @@ class Gen:
                                           "list": [self.bstr(cwf[0]) for _ in range(r.choice([0, 1, 2, 4]))], "simple": kvs(),
                                           "objs": [annot() for _ in range(r.choice([0, 1, 2, 4]))]}
                                          for _ in range(r.choice([0, 1, 1, 2, 3]))]}))
+        if r.chance(1, 3):
+            out.append((5, self.maccrash(wf)))
         if self.cur_no_hnd and r.chance(1, 2):
             def oname():
                 if r.chance(1, 3):
@@ -1448,9 +1597,8 @@ def dir_entries(h, big):
 class C02(PropBase):
     pid = "C02"
     coq_dirs = ["Base", "C02", "C08"]
-    translators = ["format_layouts.py"]
+    translators = ["format_layouts.py", "c02_reader.py"]
     bins = ["c02"]
-    translators = ["format_layouts.py"]
     impl_mem_gb = 4
     rule = ("a case = one dump model (header fields, 0..40 items per list, UTF-16 names incl. unpaired surrogates, CodeView records of "
             "every kind, build ids 0..64 bytes, regions 0..64 KiB anywhere in u64, list padding on/off; a directory with 2-4 entries of "
